@@ -44,7 +44,8 @@ type c17Node struct {
 	name string
 }
 
-func c17World(c *explore.Ctx, nNodes int, subs []c17Sub, unsubFirst bool, pubs []c17Pub) {
+func c17World(c *explore.Ctx, nNodes int, subs []c17Sub, unsubFirst bool, pubs []c17Pub, sessionEnd ...bool) {
+	endFirst := len(sessionEnd) > 0 && sessionEnd[0]
 	cas0 := func() map[string]any {
 		var ss []string
 		for _, s := range subs {
@@ -52,6 +53,9 @@ func c17World(c *explore.Ctx, nNodes int, subs []c17Sub, unsubFirst bool, pubs [
 		}
 		if unsubFirst {
 			ss = append(ss, "then UNSUBSCRIBE "+subs[0].String())
+		}
+		if endFirst {
+			ss = append(ss, fmt.Sprintf("then n%d publishes to a, and its subscriber's connection (and session) ends", subs[0].node+1))
 		}
 		return map[string]any{"nodes": nNodes, "subscriptions": ss}
 	}
@@ -109,6 +113,30 @@ func c17World(c *explore.Ctx, nNodes int, subs []c17Sub, unsubFirst bool, pubs [
 			vsched.Settle()
 			x.Recv()
 			delete(table, fmt.Sprint(subs[0].node, "|", subs[0].filter))
+		}
+		if endFirst {
+			// a message first (it is forwarded to the peers that need it only, so the node's event
+			// queues are no longer in step), then the subscriber's session ends: every peer must
+			// learn that all its subscriptions are gone
+			k := subs[0].node
+			nodes[k].pub.Send(&refmqtt.Packet{Type: refmqtt.PUBLISH, Topic: "a", Payload: []byte("warm-up")})
+			vsched.Settle()
+			for _, n := range nodes {
+				for _, r := range n.sub.Recv() {
+					if r.P != nil && r.P.Type == refmqtt.PUBLISH && r.P.QoS == 1 {
+						n.sub.Send(&refmqtt.Packet{Type: refmqtt.PUBACK, PacketID: r.P.PacketID})
+					}
+				}
+				n.fn.Published = nil
+			}
+			vsched.Settle()
+			nodes[k].sub.Close()
+			vsched.Settle()
+			for key := range table {
+				if strings.HasPrefix(key, fmt.Sprint(k, "|")) {
+					delete(table, key)
+				}
+			}
 		}
 		c.Count("states", 1)
 		// propagation complete: every node's view of every other node equals that node's local set
@@ -319,7 +347,7 @@ func c17World(c *explore.Ctx, nNodes int, subs []c17Sub, unsubFirst bool, pubs [
 
 func runC17(c *explore.Ctx) {
 	c.Level = "model_checking"
-	c.Rule = "E2: 3 real in-process brokers, each with the real federation plugin code attached in-package (serf replaced by direct join calls, gRPC by a reliable in-memory transport), one subscriber and one publisher client per node. Every distribution of <=3 (thorough 4) subscriptions from {a, a/#, +, $share/g/a, $share/h/a, $SYS/a} over the nodes (optionally followed by an UNSUBSCRIBE), propagation settled, then the whole publish battery (every origin node x topic {a, a/b, $SYS/a} x {plain, retained, retained-empty}, incl. an empty retained message for a topic that retains nothing - never set, or cleared before - and a replaced retained message); per publish: forwarded to exactly the nodes with a matching subscription (retained: all peers), once, never back; every matching non-shared subscriber gets it once; each share group gets exactly one copy federation-wide; retained stores of all nodes equal."
+	c.Rule = "E2: 3 real in-process brokers, each with the real federation plugin code attached in-package (serf replaced by direct join calls, gRPC by a reliable in-memory transport), one subscriber and one publisher client per node. Every distribution of <=3 (thorough 4) subscriptions from {a, a/#, +, $share/g/a, $share/h/a, $SYS/a} over the nodes (optionally followed by an UNSUBSCRIBE, or by a publish and the end of one subscriber's session), propagation settled, then the whole publish battery (every origin node x topic {a, a/b, $SYS/a} x {plain, retained, retained-empty}, incl. an empty retained message for a topic that retains nothing - never set, or cleared before - and a replaced retained message); per publish: forwarded to exactly the nodes with a matching subscription (retained: all peers), once, never back; every matching non-shared subscriber gets it once; each share group gets exactly one copy federation-wide; retained stores of all nodes equal."
 	c.Trusted = []string{"fake serf/gRPC (reliable here); vsched default schedule", "refmqtt"}
 	if rc := replayCase(c); rc != nil {
 		c.Fatal("C17 replay: re-run ./run.sh C17 quick (%v)", rc)
@@ -371,6 +399,7 @@ func runC17(c *explore.Ctx) {
 		c17World(c, nNodes, dists[u], false, pubs)
 		if len(dists[u]) == 2 {
 			c17World(c, nNodes, dists[u], true, pubs[:nNodes*3])
+			c17World(c, nNodes, dists[u], false, pubs[:nNodes*3], true)
 		}
 		if u%37 == 0 {
 			var ss []string
